@@ -7,6 +7,7 @@ import (
 	"fmt"
 	"regexp"
 	"strconv"
+	"strings"
 	"testing"
 	"time"
 
@@ -233,11 +234,71 @@ func runC01(t *testing.T, rc *core.RunCtx) {
 				}
 			}
 		})
+		// a view that is assembled from several pieces must come from one
+		// moment: while a reader is inside String()/StringAll() the scheduler
+		// may let the mutators run at every read-lock acquisition the getter
+		// makes (the reader holds no lock there), and what the getter returns
+		// must still be a possible state: parity of every printed tick agrees
+		// with the bracket it is printed in
+		inGetter := map[int64]int{} // reader goroutine -> read-lock depth+1
+		mwFilter := s.HookFilter
+		s.HookFilter = func(pt, detail string) bool {
+			if pt == "mx.rlock" || pt == "mx.runlock" {
+				if len(inGetter) == 0 {
+					return false
+				}
+				id := core.Goid()
+				d, on := inGetter[id]
+				if !on {
+					return false
+				}
+				if pt == "mx.runlock" {
+					inGetter[id] = d - 1
+					return false
+				}
+				inGetter[id] = d + 1
+				return d == 1
+			}
+			return mwFilter != nil && mwFilter(pt, detail)
+		}
+		oneView := func(where string) {
+			id := core.Goid()
+			var str, strAll string
+			s.WithLock(func() { inGetter[id] = 1 })
+			str = m.String()
+			strAll = m.StringAll()
+			s.WithLock(func() { delete(inGetter, id) })
+			s.Probe("getter-with-scheduling-points")
+			for name, tick := range parseTicks(str) {
+				if tick%2 == 0 {
+					s.Fail("C01/torn-view/String", "%s: String() = %q prints %s as active with the even tick %d", where, str, name, tick)
+					return
+				}
+			}
+			act, inact, _ := strings.Cut(strAll, ")")
+			for name, tick := range parseTicks(act) {
+				if tick%2 == 0 {
+					s.Fail("C01/torn-view/StringAll", "%s: StringAll() = %q prints %s as active with the even tick %d", where, strAll, name, tick)
+					return
+				}
+			}
+			for name, tick := range parseTicks(inact) {
+				if tick%2 == 1 {
+					s.Fail("C01/torn-view/StringAll", "%s: StringAll() = %q prints %s as inactive with the odd tick %d", where, strAll, name, tick)
+					return
+				}
+			}
+		}
 		w.startTasks()
 		for i := 0; i < nReaders; i++ {
 			name := fmt.Sprintf("r%d", i)
 			s.Go(name, func() {
 				for k := 0; k < nReads; k++ {
+					if k%2 == 1 {
+						oneView(fmt.Sprintf("%s.%d", name, k))
+						s.Op()
+						continue
+					}
 					where := fmt.Sprintf("%s.%d", name, k)
 					if w.cur != nil {
 						if w.handlerInFinal() {
